@@ -15,6 +15,8 @@ uint32_t tp_reap_unjoined(void);
 void tp_res_cleanup(void);
 void tp_fd_adopt(int fd, uint8_t kind);
 extern int g_close_unknown_passthrough;
+extern __thread int tp_vp1_pause_us;	/* pause of this thread at scheduling point 1 (tpt_msg_send: after the running test, before the write) */
+extern __thread int tp_post_write_pause_us;	/* pause after a successful queue write made by this thread (0 = none) */
 
 typedef struct {
 	int enabled;
